@@ -210,6 +210,7 @@ def recovery_rules(chk, prog, r):
                    "a panicked worker may not be replaced: the pool shrinks", path=wp)
             # stored at threads[id]
             stores = []
+            assign_blocks = set()
             for blk, t in r.calls_to(r"IndexMut<I>>::index_mut$|ops::IndexMut::index_mut$"):
                 idx = core.describe(prog, r, t["args"][1])
                 if desc_contains(idx, lambda y: y[0] == "call" and len(y) > 3 and y[3] == nb):
@@ -223,6 +224,7 @@ def recovery_rules(chk, prog, r):
                                 v = core.describe(prog, r, st["rv"]["o"]) if st["rv"]["k"] == "use" else None
                                 if v and desc_contains(v, lambda y: y[0] == "call" and y[1].endswith("pool::Thread::new")):
                                     assigned = True
+                                    assign_blocks.add(b2)
                     if assigned:
                         stores.append(blk)
             wp = core.must_pass(r, [tgt], nexts, through_nodes=stores, after_from=False)
@@ -231,7 +233,7 @@ def recovery_rules(chk, prog, r):
             # the handle that is joined is the dead worker's: once the replacement sits in threads[id], a take()+join() of that slot waits for
             # the live replacement while the lock on the worker list is held
             joins = [blk for blk, t in r.calls_to(JOIN)]
-            for sb in stores:
+            for sb in sorted(assign_blocks):
                 after = r.reachable(r.succs(sb), removed_nodes=set(nexts))
                 late = [j for j in joins if j in after]
                 chk.ob("R4.restart", fn, "the panicked worker is joined before its slot is given to the replacement", not late,
